@@ -42,8 +42,9 @@ func (v *loggerPlus) Printf(ctx Context, format string, a ...interface{}) {
 }
 
 func (v *loggerPlus) contextFormat(ctx Context, a ...interface{}) []interface{} {
-	if ctx, ok := ctx.(context.Context); ok {
-		if cid, ok := ctx.Value(cidKey).(int); ok {
+	// Never shadow the ctx, for the else branch requires the original object.
+	if cc, ok := ctx.(context.Context); ok {
+		if cid, ok := cc.Value(cidKey).(int); ok {
 			return append([]interface{}{fmt.Sprintf("[%v][%v]", os.Getpid(), cid)}, a...)
 		}
 	} else {
@@ -53,8 +54,9 @@ func (v *loggerPlus) contextFormat(ctx Context, a ...interface{}) []interface{} 
 }
 
 func (v *loggerPlus) contextFormatf(ctx Context, format string, a ...interface{}) (string, []interface{}) {
-	if ctx, ok := ctx.(context.Context); ok {
-		if cid, ok := ctx.Value(cidKey).(int); ok {
+	// Never shadow the ctx, for the else branch requires the original object.
+	if cc, ok := ctx.(context.Context); ok {
+		if cid, ok := cc.Value(cidKey).(int); ok {
 			return "[%v][%v] " + format, append([]interface{}{os.Getpid(), cid}, a...)
 		}
 	} else {
